@@ -93,11 +93,11 @@ func newWriter(dst io.Writer, c wcfg) (w *wsutil.Writer, panicked bool) {
 }
 
 type wobs struct {
-	n                      int
-	err                    string
-	panicked               bool
-	buffered, avail, size  int
-	calls                  int
+	n                     int
+	err                   string
+	panicked              bool
+	buffered, avail, size int
+	calls                 int
 }
 
 func (o wobs) tok() string {
